@@ -120,8 +120,6 @@ class VM(object):
         if data is None:
             self.op_count += 1
 
-        self.check_stack_size()
-
         f = self.INSTRUCTION_LOOKUP[opcode]  # type: ignore[attr-defined]
         if self.traceback_f:
             f = self.traceback_f(opcode, data, pc, self) or f
@@ -136,6 +134,10 @@ class VM(object):
 
         if self.op_count > self.MAX_OP_COUNT:
             raise ScriptError("script contains too many operations", errno.OP_COUNT)
+
+        # the limit applies to what each instruction leaves behind (an oversized
+        # initial stack may be shrunk by the first one)
+        self.check_stack_size()
 
     def check_stack_size(self) -> None:
         if len(self.stack) + len(self.altstack) > self.MAX_STACK_SIZE:
